@@ -306,9 +306,27 @@ func init() {
 		ex.lockOp(st, args[0], site, "RUnlock")
 		return nil
 	}
-	intrinsics["(*sync.Pool).Put"] = nop
+	// sync.Pool by contract: Get hands back the object most recently Put into this pool if there is one (the adversarial
+	// and, on one goroutine, the usual case: it exposes results that still alias a recycled object), otherwise New().
+	// Pools are keyed by their (concrete) address; a pool reached through a symbolic pointer always allocates.
+	intrinsics["(*sync.Pool).Put"] = func(ex *Exec, st *State, fn *ssa.Function, args []Value, site ssa.Instruction) Value {
+		if pc, ok := args[0].(*PtrC); ok && pc.Obj != 0 && len(pc.Path) == 0 {
+			if ex.pools == nil {
+				ex.pools = map[int][]Value{}
+			}
+			ex.pools[pc.Obj] = append(ex.pools[pc.Obj], args[1])
+		}
+		return nil
+	}
 	intrinsics["(*sync.Pool).Get"] = func(ex *Exec, st *State, fn *ssa.Function, args []Value, site ssa.Instruction) Value {
-		// Pool{noCopy; local; localSize; victim; victimSize; New func() any}: always allocate through New
+		if pc, ok := args[0].(*PtrC); ok && pc.Obj != 0 && len(pc.Path) == 0 {
+			if l := ex.pools[pc.Obj]; len(l) > 0 {
+				v := l[len(l)-1]
+				ex.pools[pc.Obj] = l[:len(l)-1]
+				return v
+			}
+		}
+		// Pool{noCopy; local; localSize; victim; victimSize; New func() any}
 		pv := ex.load(st, args[0]).(*Agg)
 		newf := pv.E[len(pv.E)-1]
 		if isNilFunc(newf) {
